@@ -56,11 +56,15 @@ Proof.
 Qed.
 
 (* on every history over clustering columns other than the reserved key on which the observed
-   outputs equal the backend model's, the observed outputs pass the oracle *)
+   outputs equal the backend model's, the observed outputs pass the oracle: they equal the
+   reference wherever the interface does not leave them open, and - everywhere - a GetBatch and a
+   Get of one read-only stretch answer alike *)
 Theorem agrees_implies_satisfies_proved t : Forall cc_ok_op (t_ops t) -> agrees t = true -> satisfies t = true.
 Proof.
   intros Hok H. unfold agrees in H. apply souts_eqb_eq in H. unfold satisfies. rewrite <- H.
-  destruct (t_backend t).
+  destruct (t_backend t); apply andb_true_intro; split.
   - apply run_spec_satisfies.
+  - apply spec_batch_point_proved.
   - apply refines_run_satisfies. apply bbolt_refines_proved; [exact R_init|exact Hok].
+  - apply bb_batch_point_proved.
 Qed.
